@@ -77,6 +77,14 @@ def run(ctx) -> None:
     from . import c16
     ctx.rule("R05.8", "groupby: pulling an item and computing its key are one step (after a failed or cancelled key call the item "
                       "is not left behind as if it had been keyed) (R16.3, shared)")
+    from . import objmodel
+    from . import tooltables as _tt
+    objmodel.merge_table(ctx, "R05.15", _tt.CONSUMPTION)  # (R01.15 shared, plus: items taken and calls of key)
+    ctx.floor("merge_table_cells_decided", 400)
+    objmodel.tee_histories(ctx, "R05.14", depth=5, consumption=True)  # (R01.14 shared, plus: items taken after every request)
+    ctx.floor("tee_operations", 1000)
+    objmodel.groupby_histories(ctx, "R05.13", depth=6, consumption=True)  # (R16.8 shared, plus: items taken after every operation)
+    ctx.floor("groupby_operations", 1500)
     from .common import Relabel
     ctx.rule("R05.12", "groupby: a group the parent has moved past ends at once, without pulling from the source or calling key (R16.1, shared)")
     if c16.cursor_is_single_slot(ctx, "R05.8"):
